@@ -244,44 +244,8 @@ class Slice(common.SpaceMixin, Obligation):
         self._compare(out, src, csel, h.claim, True, h)
 
     def _compare(self, out, src, csel, claim, symbolic, h=None):
-        spec = self.spec
-        ref, newlens, zipped = reference(spec, src, csel)
-        obs = {}
-        for d, n in newlens.items():
-            got = len(out.dimensions[d]) if d in out.dimensions else None
-            obs['len_' + d] = got
-            claim('dimlen:' + d, z3.BoolVal(got == n))
-        unl = dict((d[0], d[2]) for d in spec.dims)
-        bad = [p for p in common.wf_problems(out, unl)]
-        claim('well-formed', z3.BoolVal(not bad))
-        claim('variables-present', z3.BoolVal(
-            list(out.variables.keys()) == [v.name for v in spec.vars]))
-        for k, a in spec.attrs.items():
-            claim('attrs:global', z3.BoolVal(getattr(out, k, None) == a))
-        for v in spec.vars:
-            if v.name not in out.variables:
-                continue
-            ov = out.variables[v.name]
-            edims, ed, em = ref[v.name]
-            obs['dims_' + v.name] = list(ov.dimensions)
-            obs['shape_' + v.name] = list(ov.shape)
-            claim('dims:' + v.name, z3.BoolVal(tuple(ov.dimensions) == edims))
-            okattr = all(getattr(ov, k, None) == a
-                         for k, a in v.attrs.items())
-            claim('attrs:' + v.name, z3.BoolVal(okattr))
-            if tuple(ov.shape) != ed.shape:
-                claim('shape:' + v.name, z3.BoolVal(False))
-                continue
-            gm = common.getmask(ov)
-            obs['mask_' + v.name] = gm.astype(int).ravel().tolist()
-            claim('mask:' + v.name, z3.BoolVal(bool((gm == em).all())))
-            gd = common.getdata(ov)
-            eqs = []
-            for idx in np.ndindex(*ed.shape):
-                if em[idx]:
-                    continue
-                eqs.append(common.eq_expr(gd[idx], ed[idx]))
-            claim('data:' + v.name, z3.And(*eqs) if eqs else z3.BoolVal(True))
+        ref, newlens, zipped = reference(self.spec, src, csel)
+        obs = common.compare_expected(out, self.spec, ref, newlens, claim)
         if h is not None:
             for k, val in obs.items():
                 h.observe(k, val)
